@@ -22,6 +22,7 @@ import (
 	"sort"
 	"strings"
 	"sync"
+	"sync/atomic"
 	"time"
 
 	"github.com/cosmos/cosmos-sdk/client"
@@ -409,7 +410,7 @@ func chainScenario(c *chain, H int64) Scenario {
 		s.Empty = 1 << 2
 	}
 	for i := 0; i < 3; i++ {
-		v := ValSpec{Key: i, Flag: flagCommit, Sec: b.Time.Unix() + 1, Nano: int32(1000 * (i + 1))}
+		v := ValSpec{Key: (i + int(H)) % 3, Flag: flagCommit, Sec: b.Time.Unix() + 1, Nano: int32(1000 * (i + 1))}
 		if int(H%4) == i+1 {
 			v.Flag = []int{flagAbsent, flagNil, flagAbsent}[i]
 		}
@@ -607,7 +608,23 @@ func run(r *engine.Run) {
 
 	tally := engine.NewTally()
 	cfg := Cfg{N: n}
-	evalAndRecord := func(wi int, t Tuple) {
+	// violations are collected with their position in the enumeration so that the reported
+	// counterexample of every fingerprint is the first one in enumeration order (simplest first)
+	type found struct {
+		pos  int64
+		t    Tuple
+		fail *failure
+	}
+	var (
+		fmu      sync.Mutex
+		founds   []found
+		nviol    atomic.Int64
+		spaceOff int64
+	)
+	evalAndRecord := func(wi int, idx int64, t Tuple) {
+		if nviol.Load() >= 200 {
+			return // enough counterexamples: stop evaluating (the run fails anyway)
+		}
 		wk := workers[wi]
 		er := wk.eval(t)
 		tally.Eval()
@@ -615,8 +632,10 @@ func run(r *engine.Run) {
 			wk.out[l]++
 		}
 		if er.fail != nil {
-			b, _ := json.Marshal(t)
-			tally.Violate(cfg, []string{string(b)}, er.fail.fp, er.fail.detail)
+			nviol.Add(1)
+			fmu.Lock()
+			founds = append(founds, found{spaceOff + idx, t, er.fail})
+			fmu.Unlock()
 		}
 		if er.proofKey != "" {
 			tally.Nontrivial(er.proofKey)
@@ -630,12 +649,13 @@ func run(r *engine.Run) {
 			tally.Sample(24, t)
 		}
 	}
-	complete := engine.ParallelFor(int64(len(accum)), nw, deadline, func(wi int, idx int64) { evalAndRecord(wi, accum[idx]) })
-	fmt.Printf("[C12] space A (accumulation): %d tuples, complete=%v, evaluations=%d violations=%d (%.1fs)\n", len(accum), complete, tally.Evals, tally.Violations(), time.Since(t0).Seconds())
+	complete := engine.ParallelFor(int64(len(accum)), nw, deadline, func(wi int, idx int64) { evalAndRecord(wi, idx, accum[idx]) })
+	fmt.Printf("[C12] space A (accumulation): %d tuples, complete=%v, evaluations=%d violations=%d (%.1fs)\n", len(accum), complete, tally.Evals, int(nviol.Load()), time.Since(t0).Seconds())
 	if !complete {
 		r.Exhaustive = false
 		r.CapReasons = append(r.CapReasons, "space A: internal deadline")
 	}
+	spaceOff += int64(len(accum))
 
 	// ---- space B: vote format ----
 	var vspaces []voteSpace
@@ -648,7 +668,7 @@ func run(r *engine.Run) {
 		}
 	}
 	for _, vs := range vspaces {
-		if tally.Violations() > 0 {
+		if int(nviol.Load()) > 0 {
 			break
 		}
 		total := vs.odo().Total()
@@ -656,16 +676,17 @@ func run(r *engine.Run) {
 			tally.Sample(24, vs.tuple(c0, i))
 		}
 		before := tally.Evals
-		complete := engine.ParallelFor(total, nw, deadline, func(wi int, idx int64) { evalAndRecord(wi, vs.tuple(workers[wi].c, idx)) })
-		fmt.Printf("[C12] space %s: %d tuples, complete=%v, evaluated=%d violations=%d (%.1fs)\n", vs.name, total, complete, tally.Evals-before, tally.Violations(), time.Since(t0).Seconds())
+		complete := engine.ParallelFor(total, nw, deadline, func(wi int, idx int64) { evalAndRecord(wi, idx, vs.tuple(workers[wi].c, idx)) })
+		fmt.Printf("[C12] space %s: %d tuples, complete=%v, evaluated=%d violations=%d (%.1fs)\n", vs.name, total, complete, tally.Evals-before, int(nviol.Load()), time.Since(t0).Seconds())
 		if !complete {
 			r.Exhaustive = false
 			r.CapReasons = append(r.CapReasons, "space "+vs.name+": internal deadline")
 		}
+		spaceOff += total
 	}
 
 	// ---- space C: header ----
-	if tally.Violations() == 0 {
+	if int(nviol.Load()) == 0 {
 		hs := headerSpace{masks: 256, times: []tsVariant{{1, 0}, {1, 1}, {1, 999_999_999}, {1_700_000_000, 0}, {1_700_000_000, 1}, {1_700_000_000, 999_999_999},
 			{4_102_444_800, 0}, {4_102_444_800, 1}, {4_102_444_800, 999_999_999}},
 			heights: []int64{3, c0.last}, appVers: []uint64{0, 1}, chainLen: []int{1, 20}, totals: []uint32{1, 127}}
@@ -680,8 +701,8 @@ func run(r *engine.Run) {
 			tally.Sample(24, hs.tuple(c0, i))
 		}
 		before := tally.Evals
-		complete := engine.ParallelFor(total, nw, deadline, func(wi int, idx int64) { evalAndRecord(wi, hs.tuple(workers[wi].c, idx)) })
-		fmt.Printf("[C12] space C (header): %d tuples, complete=%v, evaluated=%d violations=%d (%.1fs)\n", total, complete, tally.Evals-before, tally.Violations(), time.Since(t0).Seconds())
+		complete := engine.ParallelFor(total, nw, deadline, func(wi int, idx int64) { evalAndRecord(wi, idx, hs.tuple(workers[wi].c, idx)) })
+		fmt.Printf("[C12] space C (header): %d tuples, complete=%v, evaluated=%d violations=%d (%.1fs)\n", total, complete, tally.Evals-before, int(nviol.Load()), time.Since(t0).Seconds())
 		if !complete {
 			r.Exhaustive = false
 			r.CapReasons = append(r.CapReasons, "space C: internal deadline")
@@ -689,6 +710,11 @@ func run(r *engine.Run) {
 	}
 
 	tally.MergeInto(r)
+	sort.Slice(founds, func(i, j int) bool { return founds[i].pos < founds[j].pos })
+	for _, fd := range founds {
+		b, _ := json.Marshal(fd.t)
+		r.Violate(cfg, []string{string(b)}, fd.fail.fp, "%s", fd.fail.detail)
+	}
 	for _, wk := range workers {
 		for k, v := range wk.out {
 			r.Outcomes[k] += v
